@@ -85,7 +85,7 @@ def sampled():
 
 
 def parts(tier):
-    n = 3000 if tier == "quick" else 20000
+    n = 8000 if tier == "quick" else 40000
     return [
         core.Part("pairs", "exhaustive", pair_cases),
         core.Part("sampled", "sampled", sampled, budget=n),
